@@ -23,6 +23,12 @@ BOUNDED = {
     "C01": [
         {"name": "c01_roundtrip", "script": "c01_roundtrip.py", "args": []},
     ],
+    "C05": [
+        {"name": "c05_transfer", "script": "c05_transfer.py", "args": []},
+    ],
+    "C10": [
+        {"name": "c10_maintenance", "script": "c10_maintenance.py", "args": []},
+    ],
     "C12": [
         {"name": "c12_trees", "script": "c12_trees.py", "args": []},
     ],
